@@ -492,6 +492,104 @@ def r14_5(ctx, prog, crate):
     filter_is_match_rule(ctx, "R14.5", prog, crate)
 
 
+def _r14_6_param_buffer(ctx, prog, crate, b, kp):
+    """run_tree_list with the path in ONE `&mut String` handed down the recursion. With P the buffer's content on entry
+    (its length is taken before the loop, before anything modifies it): on every path of one iteration of the loop, from
+    the loop header to the first point where the buffer is looked at (the recursive call, or taking its `&str` for the
+    leaf's lines), the content is P [+ "::" exactly when P is non-empty] + display_name(child) - whatever the previous
+    sibling left, because the iteration first cuts back to P (or every iteration restores P before it ends); nothing
+    modifies the buffer between that point and the end of the iteration other than a cut back to P; and the function
+    returns with the buffer cut back to P, which is what the caller's iteration assumes of its recursive call."""
+    from lib.patheval import PathEval
+    S_ = "std::string::String::"
+    pname = "param:" + b.param_name(kp)
+    MUT = ("clear", "push", "insert", "insert_str", "pop", "remove", "drain", "retain", "replace_range", "extend", "split_off", "push_str", "truncate")
+
+    def on_buf(c, k=0):
+        return len(c.args) > k and {z.label() for z in b.prov.op_src(c.args[k]) if z.kind in ("param", "call")} == {pname}
+    lens = [c for c in b.live_calls() if c.callee == S_ + "len" and on_buf(c)]
+    muts = [c for c in b.live_calls() if c.callee.startswith(S_) and c.callee.rsplit("::", 1)[-1] in MUT and on_buf(c)]
+    lps = [l for l in b.loops if any(m.bb in l["body"] for m in muts)]
+    if not ctx.check(len(lens) == 1 and bool(lps) and not any(b.innermost_loop(lens[0].bb) for _ in (0,)) and all(b.dominates(lens[0].bb, m.bb) for m in muts), "R14.6",
+                     ["run_tree_list", "entry-length"], "the buffer's length on entry is not taken once, before the loop and before any modification (len sites: %d)" % len(lens), b.where(0)):
+        return
+    lp = max(lps, key=lambda l: len(l["body"]))
+    Lp = lens[0].dest["l"]
+
+    def is_entry_len(op):
+        l = op["p"]["l"] if op.get("k") in ("copy", "move") and not op["p"]["proj"] else None
+        for _ in range(4):
+            if l == Lp:
+                return True
+            d = b.prov.defs.get(l, []) if l is not None else []
+            if len(d) != 1 or d[0][0] != "S":
+                return False
+            rv = d[0][3]["rv"]
+            l = rv["o"]["p"]["l"] if rv["k"] == "use" and rv["o"]["k"] in ("copy", "move") and not rv["o"]["p"]["proj"] else None
+        return False
+    reads = [c for c in b.live_calls() if c.bb in lp["body"] and ((c.callee == b.path and any(on_buf(c, k) for k in range(len(c.args)))) or
+                                                                  (c.callee.endswith("Deref>::deref") and "String" in c.callee and on_buf(c)))]
+    if not ctx.anchor("R14.6", "reads of the path buffer in the loop", len(reads), 2):
+        return
+    rec = [c for c in reads if c.callee == b.path]
+    ctx.check(len(rec) == 1, "R14.6", ["run_tree_list", "recursion-gets-the-buffer"], "recursive calls that are handed the buffer: %d" % len(rec), b.where(lp["header"]))
+    sums = PathEval(b, max_paths=8000).run(start=lp["header"], stop_at={r.bb for r in reads} | set(lp["latches"]))
+    if not ctx.check(bool(sums), "R14.6", ["run_tree_list", "paths"], "cannot enumerate the paths of one iteration of run_tree_list's loop", b.where(lp["header"])):
+        return
+    # discipline: does every iteration cut back to P before its first push (B), or is P restored after the read (A)?
+    n_reads = 0
+    for sm in sums:
+        end = sm.blocks[-1]
+        if end not in {r.bb for r in reads}:
+            continue
+        n_reads += 1
+        content = ["?left-by-the-previous-sibling"]
+        empty = None
+        for a, pol in sm.conds:
+            if a[0] == "Eq" and ("int", 0) in a[1:] and any(x != ("int", 0) and ("undef", Lp) == x for x in a[1:]):
+                empty = pol
+        for callee, args, bb in sm.calls:
+            c = b.call_at(bb)
+            if c is None or c not in muts:
+                continue
+            last = callee.rsplit("::", 1)[-1]
+            if last == "truncate" and is_entry_len(c.args[1]):
+                content = ["P"]
+            elif last == "push_str":
+                v = const_str(c.args[1]) if "const_str" in globals() else None
+                srcs = b.prov.op_src(c.args[1])
+                if any(z.kind == "const" and str(z.a) == '"::"' for z in srcs) and not any(z.kind == "call" for z in srcs):
+                    content = content + ["::"]
+                elif any(z.kind == "call" and z.a == "entry::tree::EntryTree::display_name" for z in srcs):
+                    content = content + ["name"]
+                else:
+                    content = content + ["?" + ",".join(sorted(z.label() for z in srcs))[:60]]
+            else:
+                content = ["?" + last]
+        want = ["P", "name"] if empty else ["P", "::", "name"]
+        ctx.check(empty is not None, "R14.6", ["run_tree_list", "separator-iff-parent-path-non-empty"],
+                  "a path of the loop does not decide on the entry length being zero before the buffer is looked at", b.where(end))
+        ctx.check(content == want, "R14.6", ["run_tree_list", "content-at-first-read"],
+                  "when the buffer is looked at (at %s) it holds %s, expected %s (P = the content on entry)" % (b.where(end), content, want), b.where(end), detail={"content": content})
+    ctx.check(n_reads >= 2, "R14.6", ["run_tree_list", "paths-reach-a-read"], "paths of an iteration that reach a look at the buffer: %d" % n_reads, b.where(lp["header"]))
+    # after the look: nothing but a cut back to P within the iteration
+    for r in reads:
+        after = b.reach(b.succ[r.bb], avoid=[lp["header"]])
+        late = [m for m in muts if m.bb in after and m.bb in lp["body"] and not (m.callee == S_ + "truncate" and is_entry_len(m.args[1]))]
+        ctx.check(not late, "R14.6", ["run_tree_list", "built-before-read"], "the path buffer is modified (%s) after it was looked at within one iteration" % [m.callee for m in late], r.line())
+    # the function hands the buffer back as it got it
+    fin = [m for m in muts if m.bb not in lp["body"] and m.callee == S_ + "truncate" and is_entry_len(m.args[1]) and all(b.dominates(m.bb, x) for x in b.returns)]
+    restored_in_loop = all(any(m.callee == S_ + "truncate" and is_entry_len(m.args[1]) and m.bb in b.reach(b.succ[r.bb], avoid=[lp["header"]]) and
+                               all(lt not in b.reach(b.succ[r.bb], avoid=[m.bb, lp["header"]]) for lt in lp["latches"]) for m in muts) for r in reads)
+    ctx.check(bool(fin) or restored_in_loop, "R14.6", ["run_tree_list", "restored-for-the-caller"],
+              "run_tree_list can return with the buffer holding more than the path it was given (the caller's next sibling would inherit it)", b.where(0))
+    # the root call starts from an empty buffer
+    callers = [c for c in prog.callers_of(b.path, crates=[crate]) if c.body.path != b.path and "::tests::" not in c.body.path]
+    for c in callers:
+        news = [x for x in c.body.live_calls() if x.callee in (S_ + "new", S_ + "with_capacity")]
+        ctx.check(len(news) >= 1, "R14.6", ["run_tree_list", "starts-empty", c.body.path], "the listing is not started from a fresh empty String", c.line())
+
+
 def r14_6(ctx, prog, crate):
     """The listed path is `parent::name` (just `name` at the root) for every node: on every path through one iteration
     of run_tree_list's loop, the content of the reused path buffer when it is first read (recursion, println!) is
@@ -506,6 +604,9 @@ def r14_6(ctx, prog, crate):
     ctx.saw(b)
     S_ = "std::string::String::"
     mk = [c for c in b.live_calls() if c.callee in (S_ + "with_capacity", S_ + "new")]
+    bufp = [l for l in range(1, b.arg_count + 1) if (b.local_ty(l) or "").replace(" ", "") in ("&mutstd::string::String",)]
+    if not mk and len(bufp) == 1:
+        return _r14_6_param_buffer(ctx, prog, crate, b, bufp[0])
     if not mk:
         # no reused buffer: a fresh string per node (format!-style, as EntryTree::retain does). Nothing can be left over from
         # the previous sibling; what remains checkable is that the pieces are the parent path and this node's display name.
